@@ -47,6 +47,28 @@ CHECKS["C10"] = dict(
     text="Theorems in coq/Properties/C10.v: a successful round-robin send writes the whole message to the head of the rotation only and moves it to the tail; with a duplicate-free rotation of live peers n consecutive sends reach the n members in order (strict rotation) and restore the queue; a late joiner enters at the tail; no live peer => ReturnToSender with the message and nothing written. Real sockets: every join order/time for <=3 peers x 6 sends, writers accepting k bytes per call or answering Pending first. Known finding rr-duplicate-id-after-rejoin is reported as such.",
     note=SOCK_NOTE, design="4 C10")
 
+FQ_NOTE = "Trusted: kernel, translator, extraction, driver, harness. Granularity: a parking_lot::Mutex critical section is one atomic step; poll_next's two critical sections and the stream poll between them are separate steps, any environment step may be scheduled in between (coq/Model/FairQueue.v). The model is replayed label by label on the real FairQueue through scripted streams whose poll_next executes the in-window events, so no threads are needed. BinaryHeap/HashMap are modelled as sorted list / key set; AtomicUsize wrap-around ignored; the executor re-polling a woken task is tokio's."
+CHECKS["C05"] = dict(
+    technique="Coq proof (invariant over all label interleavings of the fair-queue transition system; composition with the C02 stream theorems) + exhaustive/random label schedules replayed on the real FairQueue and random scenarios on the six receiving socket types",
+    text="Theorems in coq/Properties/C05.v: for every interleaving of the receiver's critical sections with wakes, inserts, removes and arrivals - no assumption on the environment - delivered ++ in-flight ++ remaining = arrived per stream (exactly once, in order), no registered stream is lost, and per connection the items are the declarative reading of its byte stream for every chunking. All depth-5/6 schedules for 2 streams incl. events inside the poll window and seeded deep schedules run on the real queue; the six receiving sockets are run on segmented multi-peer scenarios against the model and a per-connection order oracle.",
+    note=FQ_NOTE, design="4 C05")
+CHECKS["C06"] = dict(
+    technique="Coq proof (claim invariant and parked invariant over all interleavings; one-claim and potential argument for the rotation bound under the waker contract) + schedules with a counting waker and an executor that re-polls only when woken, on the real FairQueue",
+    text="Theorems in coq/Properties/C06.v: every stream in the map holds a claim (ready event or kept waker); a parked, un-woken receiver sits on an empty heap with its waker stored; hence a ready registered stream still owes its wake and that wake (or an insert) wakes the receiver - no lost wake-up, for all interleavings; poll_next terminates; under the contract that a kept waker fires once, each stream holds at most one claim and a waiting stream sees at most (#claiming streams - 1) foreign deliveries. Real queue: all depth-5/6 schedules + seeded ones ended by a drain where any item left on a registered stream is a lost wake-up; saturated rotation schedules.",
+    note=FQ_NOTE + " The fairness bound assumes the registration contract (tokio's I/O driver: a registration is consumed by its wake); safety and no-lost-wake-up assume nothing.", design="4 C06")
+CHECKS["C11"] = dict(
+    technique="Coq proof (refinement of the subscription list to a reference prefix multiset; iff-characterisation of matching; exactly-once publish lemma) + exhaustive short histories on real PUB/XPUB against a reference oracle and the extracted model",
+    text="Theorems in coq/Properties/C11.v: for every per-subscriber history the kept list has the reference multiset's multiplicities (subscribe +1, unsubscribe -1 saturating), a message is matched iff some active subscription is a byte-prefix of its first frame, malformed messages change nothing, one publish writes to a matching subscriber exactly once and to nobody else. All histories of length <=3/4 over 12 symbols x 6 first frames on real PUB and XPUB, plus 2-3 subscriber random histories; XPUB recv verbatim/in order.",
+    note=SOCK_NOTE + " PUB applies subscriptions in a spawned task: compared at quiescence only.", design="4 C11")
+CHECKS["C12"] = dict(
+    technique="Coq proof (invariants of try_send over every transport answer sequence: stream well-formedness, buffer bound, accepting case) + the real try_send replaying the same answer scripts + real PUB/XPUB with a stalled/slow/broken subscriber",
+    text="Theorems in coq/Properties/C12.v: for every answer sequence of the transport, written++buffered is extended by exactly the encoded message when try_send accepts it and is unchanged otherwise (only whole messages are dropped; what reached the peer is a prefix of a well-formed stream of an order-preserving subsequence), the buffer stays below high-water mark + one message, an accepting connection misses nothing. The high-water mark is regenerated from the Cargo.lock-pinned asynchronous-codec. Real TrySend on scripted writers; real publishers: send always returns, healthy subscribers miss nothing.",
+    note="Trusted: kernel, translator, extraction, driver, harness. FramedWrite2 (third-party, pinned) is modelled by hand from its source; BytesMut capacity vs length is not modelled (measured separately under C03's allocator bounds).", design="4 C12")
+CHECKS["C14"] = dict(
+    technique="Coq proof (fair queue holds nothing across calls; items accounted for over all schedules; REQ pending-recv lemma) + exhaustive (cut position x polls-before-drop) cancellation grid on all seven receiving socket types",
+    text="Theorems in coq/Properties/C14.v: poll_next is synchronous so nothing is checked out whenever the receiver is parked; items are accounted for at every point of every schedule, hence across abandoned polls; a REQ recv that is still pending leaves the socket owing it, and a send is refused meanwhile; the structure (no take() of the marker before the await) is re-read from src/req.rs. Real sockets: a recv future is created, polled 0-3 times and dropped at every byte position of the incoming messages, repeated after every byte; the drained sequence and the following send/recv are judged.",
+    note=SOCK_NOTE + " Suspension points are those of the model: an await that never returns Pending in the harness (uncontended scc lookup) is covered by the theorems only.", design="4 C14")
+
 NOT_YET = {
 }
 
